@@ -13,6 +13,7 @@ import (
 type recCache struct {
 	inner mast.NodeCache
 	seen  map[string]interface{}
+	prev  *recCache // the cache this one replaced (`coldcache`): its objects are still dumped
 }
 
 func (c *recCache) Add(key, value interface{}) {
@@ -78,7 +79,13 @@ func (s *Session) hsync(actor int) string {
 	}
 	var items []item
 	seenNow := map[uintptr]bool{}
+	var chain []*recCache
 	if rc, ok := s.Cache.(*recCache); ok {
+		for ; rc != nil; rc = rc.prev {
+			chain = append([]*recCache{rc}, chain...) // oldest first: object numbering is by first sight
+		}
+	}
+	for _, rc := range chain {
 		keys := make([]string, 0, len(rc.seen))
 		for k := range rc.seen {
 			keys = append(keys, k)
